@@ -319,6 +319,12 @@ def coherent(ctx, mol, hist, last_op):
                 ctx.violation('derived-view-raises/%s/%s/after-%s' % (name, type(e).__name__, last_op),
                               '%r after %s' % (e, hist[-5:]), {'history': hist})
                 return False
+        if a != b and name == 'atom_labels' and invalid and isinstance(a, dict) and isinstance(b, dict) and \
+                {n: v[1:] for n, v in a.items()} == {n: v[1:] for n, v in b.items()}:
+            # only hydrogen counts differ and the molecule has atoms without any valence state: after twenty random edits the
+            # hydrogens of such a soup are whatever the last conversion left, not a function of the structure
+            ctx.count('labels.hydrogens-not-compared-on-valence-invalid')
+            continue
         if a != b and name in ('sssr', 'aromatic_rings', 'bond_marks', 'atom_labels') and _ring_gap(mol):
             ctx.exclude('ring-perception-gap (C06)', {'history': hist[-4:]})
             continue
